@@ -37,6 +37,7 @@ def prepare(tier):  # pylint: disable=unused-argument
     corpus.warm_variants()
     workload.pools()
     paths = corpus.class_paths()
+    seed_sweep_list()
     for path in paths:
         corpus.resolve(path)
     return None
@@ -85,12 +86,30 @@ def _generate_pairsweep(index):
     return {'kind': 'pairsweep', 'channel': channel.name, 'first': first.hex(), 'second': second.hex()}
 
 
+_SEED_SWEEP = None
+
+
+def seed_sweep_list():
+    global _SEED_SWEEP  # pylint: disable=global-statement
+    if _SEED_SWEEP is None:
+        out = []
+        for path in corpus.class_paths():
+            for raw in corpus.accepted(path)[:4]:
+                if 2 <= len(raw) <= 200 and not wirefault.is_text(raw):
+                    out.append((path, raw.hex()))
+        _SEED_SWEEP = out
+    return _SEED_SWEEP
+
+
 GIANT_UNITS = ('mysql', 'handshake-ske', 'handshake-variant', 'handshake-status')
 
 
 def _generate(rng, index, tier, extra):  # pylint: disable=unused-argument
     if extra and extra.get('phase') == 'pairsweep':
         return _generate_pairsweep(index)
+    if extra and extra.get('phase') == 'seedsweep':
+        path, hexdata = seed_sweep_list()[index]
+        return {'kind': 'seedsweep', 'cls': path, 'hex': hexdata}
     roll = rng.random()
     junk = bytes(rng.getrandbits(8) for _ in range(rng.choice((1, 2, 5, 16)))).hex()
     if rng.random() < (0.0005 if tier == 'quick' else 0.0002):
@@ -154,9 +173,48 @@ def execute(doc):
         _exec_giant(doc, res)
     elif doc['kind'] == 'pairsweep':
         _exec_pairsweep(doc, res)
+    elif doc['kind'] == 'seedsweep':
+        _exec_seedsweep(doc, res)
     else:
         raise core.HarnessError('unknown schedule kind %r' % doc['kind'])
     return res
+
+
+def _exec_seedsweep(doc, res):
+    """Complete single-octet fault enumeration on every small binary seed: each octet incremented by 1 and 2,
+    decremented by 1, set to 00 and ff (length octets that then announce slightly more or less than is there), the
+    result judged as it stands, one and two octets shorter, and with 48 more octets behind it."""
+    cls = corpus.resolve(doc['cls']) or core.get_class(doc['cls'])
+    raw = bytes.fromhex(doc['hex'])
+    framer_name = FRAMING_CLASSES.get(doc['cls'])
+    only = doc.get('only')
+    plan = only if only is not None else [
+        [offset, value, tail] for offset in range(len(raw))
+        for value in sorted({(raw[offset] + 1) & 0xff, (raw[offset] + 2) & 0xff, (raw[offset] - 1) & 0xff, 0x00, 0xff} - {raw[offset]})
+        for tail in (0, -1, -2, 48)]
+    junk = bytes(range(0x30, 0x60))
+    cases = 0
+    for offset, value, tail in plan:
+        data = raw[:offset] + bytes((value, )) + raw[offset + 1:]
+        if tail < 0:
+            if offset >= len(data) + tail:
+                continue
+            data = data[:tail]
+        elif tail:
+            data += junk[:tail]
+        before = len(res.violations)
+        oracles.probe_c03(cls, data, res, framer_name, framing=framer_name is not None, junk=junk[:7])
+        for violation in res.violations[before:]:
+            violation['case'] = [offset, value, tail]
+        cases += 1
+        if len(res.violations) > 3:
+            break
+    res.sim_events += cases
+    res.stats['fault.set'] += cases
+    res.stats['seedsweep.cases'] += cases
+    res.stats['runs.seedsweep'] += 1
+    res.sched_sig = ('seedsweep', doc['cls'].rsplit('.', 1)[1], doc['hex'][:16], len(raw))
+    res.nontrivial = True
 
 
 def _exec_pairsweep(doc, res):
@@ -351,7 +409,7 @@ def shrink(doc, sig, budget):
         cand.update(changes)
         return core.has_sig(me, cand, sig)
 
-    if doc['kind'] == 'pairsweep':
+    if doc['kind'] in ('pairsweep', 'seedsweep'):
         result = core.guarded_execute(me, doc)
         for violation in result.violations:
             if violation['sig'] == sig and 'case' in violation and test_with(only=[violation['case']]):
@@ -395,7 +453,8 @@ def check(tier, seed):
     n_runs, wall = BUDGET[tier]
     pairs = core.run_batch(me, seed, tier, len(workload.STREAM_CHANNELS) * (PAIR_SEEDS if tier == 'quick' else 12), 600.0,
                            {'phase': 'pairsweep'}, chunk=1)
-    batch = core.merge_batches([pairs, core.run_batch(me, seed, tier, n_runs, wall, extra), histories])
+    seeds = core.run_batch(me, seed, tier, len(seed_sweep_list()), 900.0, {'phase': 'seedsweep'}, chunk=4)
+    batch = core.merge_batches([pairs, seeds, core.run_batch(me, seed, tier, n_runs, wall, extra), histories])
     coverage = core.coverage_from_batch(
         batch, RULE, fault_kinds=wire.FAULT_KINDS,
         probes=('accepted_with_trailing_bytes', 'corrupted_input_accepted', 'next_record_already_in_buffer'),
